@@ -31,6 +31,13 @@ type LedgerEntry struct {
 	Expect string `json:"expect"` // unsat | sat
 }
 
+// Ledger lists the obligations that discharge on the unchanged tree (claimed) and those that are
+// generated but not discharged there (never claimed; listed so that a NEW failing obligation is noticed).
+type Ledger struct {
+	Proved   []LedgerEntry `json:"proved"`
+	Unproved []string      `json:"unproved"`
+}
+
 type KnownFinding struct {
 	Kind       string `json:"kind"` // known | fixed
 	Property   string `json:"property"`
@@ -295,32 +302,37 @@ func cmdCheck(args []string, writeLedger bool) {
 
 	ledgerPath := filepath.Join(root, "ledger", prop+".json")
 	if writeLedger {
-		var led []LedgerEntry
-		skipped := 0
+		var lg Ledger
 		for _, o := range all {
 			want := "unsat"
 			if o.ExpectSat {
 				want = "sat"
 			}
 			if o.Result == want && o.TimeS < float64(timeout)*0.7 {
-				led = append(led, LedgerEntry{o.Name, want})
+				lg.Proved = append(lg.Proved, LedgerEntry{o.Name, want})
 			} else {
-				skipped++
+				lg.Unproved = append(lg.Unproved, o.Name)
 				fmt.Printf("not in ledger: %s (%s %.1fs) %s\n", o.Name, o.Result, o.TimeS, firstLines(o.Output, 2))
 			}
 		}
-		sort.Slice(led, func(i, j int) bool { return led[i].Name < led[j].Name })
+		sort.Slice(lg.Proved, func(i, j int) bool { return lg.Proved[i].Name < lg.Proved[j].Name })
+		sort.Strings(lg.Unproved)
 		_ = os.MkdirAll(filepath.Dir(ledgerPath), 0o755)
-		writeJSON(ledgerPath, led)
-		fmt.Printf("ledger %s: %d obligations (%d generated, %d skipped)\n", prop, len(led), len(all), skipped)
+		writeJSON(ledgerPath, lg)
+		fmt.Printf("ledger %s: %d obligations (%d generated, %d unproved)\n", prop, len(lg.Proved), len(all), len(lg.Unproved))
 	}
-	var led []LedgerEntry
+	var lg Ledger
 	lb, err := os.ReadFile(ledgerPath)
 	if err != nil {
 		fmt.Fprintln(os.Stderr, "no ledger for", prop)
 		os.Exit(3)
 	}
-	_ = json.Unmarshal(lb, &led)
+	_ = json.Unmarshal(lb, &lg)
+	led := lg.Proved
+	unprovedAtBaseline := map[string]bool{}
+	for _, n := range lg.Unproved {
+		unprovedAtBaseline[n] = true
+	}
 	var known []KnownFinding
 	if kb, err := os.ReadFile(filepath.Join(root, "known_findings.json")); err == nil {
 		_ = json.Unmarshal(kb, &known)
@@ -377,6 +389,30 @@ func cmdCheck(args []string, writeLedger bool) {
 		}
 		violations++
 	}
+	// obligations that did not exist on the unchanged tree and fail now (e.g. a new call whose
+	// callee precondition is not met, a new loop without invariant): later proofs relied on them
+	for _, o := range all {
+		if inLedger[o.Name] || unprovedAtBaseline[o.Name] {
+			continue
+		}
+		want := "unsat"
+		if o.ExpectSat {
+			want = "sat"
+		}
+		if o.Result == want {
+			continue
+		}
+		rp := filepath.Join(replayDir, sanitize(o.Name)+".json")
+		rep := map[string]interface{}{"property": prop, "obligation": o.Name, "kind": o.Kind, "contract": o.Text, "contract_src": o.Src,
+			"expected": want, "verdict": o.Result, "backend": o.Backend, "solver_output": o.Output, "model": o.Model,
+			"note": "obligation newly generated from the changed source (not present on the unchanged tree) and not discharged"}
+		if o.Gen != "" {
+			rep["reason"] = "cannot-generate: " + o.Gen
+		}
+		writeJSON(rp, rep)
+		lines = append(lines, fmt.Sprintf("VIOLATION property=%s replay=%s no-failing-input-found", prop, rp))
+		violations++
+	}
 	// known findings: strong obligations that are expected to fail
 	for name, k := range knownBy {
 		o := byName[name]
@@ -428,10 +464,10 @@ func writeJSON(path string, v interface{}) {
 func writeEvidence(root, prop, tier string, seed int, frs []*FuncResult, all []*Obligation, cfg PropCfg, wall float64, violations int, bounded []map[string]interface{}, discharged int) {
 	var ledgerNames map[string]bool
 	if lb, err := os.ReadFile(filepath.Join(root, "ledger", prop+".json")); err == nil {
-		var led []LedgerEntry
-		_ = json.Unmarshal(lb, &led)
+		var lg Ledger
+		_ = json.Unmarshal(lb, &lg)
 		ledgerNames = map[string]bool{}
-		for _, l := range led {
+		for _, l := range lg.Proved {
 			ledgerNames[l.Name] = true
 		}
 	}
